@@ -23,6 +23,10 @@ Comps == <<
   Comp("disjoint", <<OA, OB>>, << >>),
   Comp("overlap", << SObj(Props2("a", SInt, "b", SStr), {"a"}), SObj(Props1("b", SStr), {"b"}) >>, << >>),
   Comp("closed-first", << SObjClosed(Props1("a", SInt), {"a"}), OB >>, << >>),
+  (* unsatisfiable: the closed schema forbids the property the other one requires *)
+  Comp("closed-vs-required-other", << SObjClosed(Props1("a", SStr), {}), SObj(Props1("b", SInt), {"b"}) >>, << >>),
+  Comp("closed-vs-optional-other", << SObjClosed(Props1("a", SStr), {}), SObj(Props1("b", SInt), {}) >>, << >>),
+  Comp("closed-vs-required-shared", << SObjClosed(Props2("a", SStr, "b", SInt), {}), SObj(Props1("b", SInt), {"b"}) >>, << >>),
   Comp("closed-both-same", << SObjClosed(Props2("a", SInt, "b", SStr), {"a"}), SObjClosed(Props2("a", SInt, "b", SStr), {}) >>, << >>),
   Comp("addl-schema", << With(OA, "additionalProperties", SInt), SObj(Props1("b", SInt), {}) >>, << >>),
   Comp("ref-and-obj", << SRef("N"), SObj(Props1("b", SStr), {"b"}) >>, NDef),
@@ -61,7 +65,8 @@ ObjPool == << OA, OB, OC, SObjClosed(Props1("a", SInt), {"a"}), SObj(Props2("a",
               SObj(Props1("b", EnumS(<<JS(<<"a">>), JS(<<"b">>)>>)), {}),
               SObj(Props1("b", EnumS(<<JS(<<"b">>), JS(<<"c">>)>>)), {"b"}),
               [type |-> "object", required |-> <<"a">>],
-              SObj(Props1("a", SNullable(SInt)), {}) >>
+              SObj(Props1("a", SNullable(SInt)), {}),
+              SObjClosed(Props1("a", SStr), {}), SObj(Props1("b", SInt), {"b"}) >>
 ScalarPool == << SStr, SInt, SNum, EnumS(<<JS(<<"a">>), JS(<<"b">>)>>), EnumS(<<JS(<<"b">>), JS(<<"c">>)>>),
                  [type |-> "string", minLength |-> 1], [type |-> "string", maxLength |-> 1],
                  [types |-> <<"string", "integer">>], [enum |-> <<JInt(1), JInt(2), JInt(3)>>],
